@@ -1448,7 +1448,7 @@ Proof.
       destruct (b =? RtFirst) eqn:B2; [exact I|].
       destruct (b =? RtMiddle) eqn:B3; [apply N.eqb_eq in B3; congruence|].
       cbn [fst].
-      rewrite concat_app. cbn [concat]. rewrite app_nil_r.
+      rewrite concat_app. change (concat [d1]) with (d1 ++ []). rewrite app_nil_r.
       assert (Hp : concat (a :: fr) ++ d1 =
                    firstn (length (concat (a :: fr)) + N.to_nat MaxRec) (payload e)).
       { rewrite <- Hcat, firstn_app_2. reflexivity. }
@@ -1467,7 +1467,8 @@ Proof.
       assert (IH' := IH rem' ((a :: fr) ++ [d1]) (q - length A)%nat fu He).
       cbv zeta in IH'.
       destruct IH' as [Hs | (rg & Hin & Hcov)].
-      * rewrite concat_app. cbn [concat]. rewrite app_nil_r, <- app_assoc, Hsplit. exact Hcat.
+      * rewrite concat_app. change (concat [d1]) with (d1 ++ []).
+        rewrite app_nil_r, <- (app_assoc _ d1 rem'), Hsplit. exact Hcat.
       * intro Hs. apply (f_equal (@length _)) in Hs. subst rem'. rewrite skipn_length in Hs.
         cbn [length] in Hs. lia.
       * subst rem'. rewrite skipn_length. lia.
@@ -1483,7 +1484,6 @@ Proof.
     destruct rem as [|x rem0]; [congruence|].
     set (rem := x :: rem0) in *.
     assert (Hd : len rem <= 65535) by lia.
-    rewrite app_nth1 in Hb by exact Hq || idtac.
     destruct (Nat.eq_dec q 6) as [->|H6]; [|apply read_entry_i_corrupt_rec; assumption].
     rewrite phys_nth6 in Hb.
     cbv zeta. left. destruct fuel as [|fu]; [exact I|].
@@ -1678,13 +1678,14 @@ Lemma C10_corrupt_ok : forall es i b,
   is_prefix (map canon (firstn (whole_within es i) es)) out /\
   (is_prefix out (map canon es) \/ crc_accepted_over L' i).
 Proof.
-  intros es i b Hes Hi Hb L' out. subst out.
-  rewrite <- replay_file_i_fst. unfold replay_file_i.
+  intros es i b Hes Hi Hb L' out. subst out L'.
+  rewrite <- replay_file_i_fst. unfold crc_accepted_over, replay_file_i.
+  set (L' := set_nth i b (encode_log es)).
   assert (Hfuel : (whole_within es i < S (length L'))%nat).
   { subst L'. rewrite set_nth_length by exact Hi. pose proof (whole_within_le es i). lia. }
-  destruct (replay_aux_corrupt es i b (S (length L')) [] Hes Hi Hb Hfuel)
-    as [Hg | ((tl & Hg) & [rem dl] & Hin & Hcov)]; fold L' in Hg || fold L' in Hg, Hin, Hcov;
-    cbn [rev app] in Hg.
+  pose proof (replay_aux_corrupt es i b (S (length L')) [] Hes Hi Hb Hfuel) as H.
+  cbv zeta in H. fold L' in H. cbn [rev app] in H.
+  destruct H as [Hg | ((tl & Hg) & [rem dl] & Hin & Hcov)].
   - rewrite Hg. split; [exists []; rewrite app_nil_r; reflexivity|].
     left. exists (map canon (skipn (whole_within es i) es)).
     rewrite <- map_app, firstn_skipn. reflexivity.
@@ -1701,3 +1702,20 @@ Theorem C10_corrupt : forall es i b,
   is_prefix (map canon (firstn (whole_within es i) es)) out /\
   (is_prefix out (map canon es) \/ crc_accepted_over L' i).
 Proof. intros es i b H. apply C10_corrupt_ok. apply forallb_wf_enc_ok. exact H. Qed.
+
+Definition ex_log3 : list wentry := [ex_small; mkW OpPut 7 [1] [2; 3]; ex_small].
+
+Example C10_corrupt_hyp_sat :
+  forallb wf_entry ex_log3 = true /\
+  Nat.ltb 30 (length (encode_log ex_log3)) = true /\
+  nth 30 (encode_log ex_log3) 0 = OpPut /\
+  whole_within ex_log3 30 = 1%nat /\
+  (* a data byte replaced: CRC mismatch, replay stops after the first entry *)
+  replay_file (set_nth 30 0 (encode_log ex_log3)) = ([canon ex_small], Damaged) /\
+  (* the type byte (not covered by the CRC) turned FULL into FIRST: the next FULL record
+     arrives while a fragment is pending *)
+  nth 29 (encode_log ex_log3) 0 = RtFull /\
+  replay_file (set_nth 29 RtFirst (encode_log ex_log3)) = ([canon ex_small], Damaged) /\
+  (* the instrumented reader lists every accepted record of the intact log *)
+  snd (replay_file_i (encode_log ex_log3)) = [(69, 16); (46, 16); (23, 16)]%nat.
+Proof. vm_compute. repeat split. Qed.
